@@ -122,49 +122,87 @@ Fixpoint catch_up (p : params) (pr : proc) (bs : list block) : option proc :=
 
 Definition no_ready_wallet (pr : proc) : bool := match s_own (pr_sim pr) with [] => true | _ => false end.
 
-(* NtfnsHandler.Start; [ff] is the literal 2000 of the code *)
-Definition start (p : params) (ff : Z) (pr : proc) : option proc :=
+(* NtfnsHandler.Start; [ff] is the literal 2000 of the code.
+   [tipfix]: the code as repaired (KNOWN_FINDINGS: restart-stays-on-abandoned-tip): when there is
+   nothing to catch up by height (syncHeight >= indexHeight) the node's best block is fetched and,
+   if it is not the stored tip, goes through processConnectedBlock (reorg).  [tipfix = false] is
+   the code as found: catch-up by height only. *)
+Definition tip_check (p : params) (g : block) (pr : proc) : option proc :=
+  let n := s_node (pr_sim pr) in
+  let blk := last n g in
+  if (snd (pr_best pr) =? b_id blk)%N then Some pr else catch_up p pr [blk].
+
+Definition start (p : params) (tipfix : bool) (ff : Z) (g : block) (pr : proc) : option proc :=
   let n := s_node (pr_sim pr) in
   let hs := fst (tip (s_wallet (pr_sim pr))) in        (* syncHeight, read from the store *)
   let hi := chain_height n in                          (* indexHeight *)
   let todo := above n hs in
-  if no_ready_wallet pr && (ff <? hi) then
-    let skip := filter (fun b => b_height b <? hi - ff) todo in
-    let rest := filter (fun b => negb (b_height b <? hi - ff)) todo in
-    catch_up p (fold_left ff_step skip pr) rest
-  else catch_up p pr todo.
+  let caught :=
+    if no_ready_wallet pr && (ff <? hi) then
+      let skip := filter (fun b => b_height b <? hi - ff) todo in
+      let rest := filter (fun b => negb (b_height b <? hi - ff)) todo in
+      catch_up p (fold_left ff_step skip pr) rest
+    else catch_up p pr todo in
+  match caught with
+  | None => None
+  | Some pr1 => if tipfix && (hi <=? hs) then tip_check p g pr1 else Some pr1
+  end.
 
-Definition restart (p : params) (ff : Z) (pr : proc) : option proc := start p ff (reopen pr).
+Definition restart (p : params) (tipfix : bool) (ff : Z) (g : block) (pr : proc) : option proc :=
+  start p tipfix ff g (reopen pr).
 
 (* a run with crashes: the process stops right after its k1-th commit, is restarted, stops again
    right after k2 further commits (counted after the restart has completed), ... *)
-Fixpoint crashes (p : params) (ff : Z) (ks : list nat) (pr : proc) (h : list event) : option proc :=
+Fixpoint crashes (p : params) (tipfix : bool) (ff : Z) (g : block) (ks : list nat) (pr : proc) (h : list event)
+  : option proc :=
   match ks with
   | [] => Some (prun p pr h)
   | k :: ks' =>
       let '(pr1, _, post) := cut p k pr h in
-      match restart p ff pr1 with
-      | Some pr2 => crashes p ff ks' pr2 post
+      match restart p tipfix ff g pr1 with
+      | Some pr2 => crashes p tipfix ff g ks' pr2 post
       | None => None
       end
   end.
 
-Definition crash_run (p : params) (ff : Z) (g : block) (k : nat) (h : list event) : option proc :=
-  crashes p ff [k] (init_proc g) h.
+Definition crash_run (p : params) (tipfix : bool) (ff : Z) (g : block) (k : nat) (h : list event) : option proc :=
+  crashes p tipfix ff g [k] (init_proc g) h.
 
 (* the same run written as a history of the process that never stops: the announcements of the
    node's blocks above the stored tip are inserted at the crash point *)
-Definition catchup_events (pr : proc) : list event :=
-  map EvProcess (above (s_node (pr_sim pr)) (fst (tip (s_wallet (pr_sim pr))))).
+Definition catchup_events (tipfix : bool) (g : block) (pr : proc) : list event :=
+  let n := s_node (pr_sim pr) in
+  let t := tip (s_wallet (pr_sim pr)) in
+  map EvProcess (above n (fst t)) ++
+  (if tipfix && (chain_height n <=? fst t) && negb (snd t =? b_id (last n g))%N then [EvProcess (last n g)] else []).
 
-Definition crash_history (p : params) (g : block) (k : nat) (h : list event) : list event :=
-  let '(pr1, pre, post) := cut p k (init_proc g) h in pre ++ catchup_events pr1 ++ post.
+Definition crash_history (p : params) (tipfix : bool) (g : block) (k : nat) (h : list event) : list event :=
+  let '(pr1, pre, post) := cut p k (init_proc g) h in pre ++ catchup_events tipfix g pr1 ++ post.
 
 (* "after catching up with the node": the announcement of the node's tip is processed *)
 Definition finish (p : params) (g : block) (pr : proc) : proc :=
   pstep p pr (EvProcess (last (s_node (pr_sim pr)) g)).
 
 Definition observe (pr : proc) (w : N) : report := model_report (s_wallet (pr_sim pr)) w.
+
+(* where a restart is not covered by the C06 theorems: the fast-forward branch of Start (it is
+   treated separately, see CrashProofs.start_ff_on_chain), and a node reorganised back to its
+   bare genesis while the wallet is ahead of it *)
+Definition safe_point (g : block) (ff : Z) (pr : proc) : Prop :=
+  no_ready_wallet pr && (ff <? chain_height (s_node (pr_sim pr))) = false /\
+  (last (s_node (pr_sim pr)) g <> g \/ snd (tip (s_wallet (pr_sim pr))) = b_id g).
+
+Fixpoint crashes_safe (p : params) (tipfix : bool) (ff : Z) (g : block) (ks : list nat) (pr : proc) (h : list event) : Prop :=
+  match ks with
+  | [] => True
+  | k :: ks' =>
+      let '(pr1, _, post) := cut p k pr h in
+      safe_point g ff pr1 /\
+      match restart p tipfix ff g pr1 with
+      | Some pr2 => crashes_safe p tipfix ff g ks' pr2 post
+      | None => True
+      end
+  end.
 
 (* the volatile state is a function of the store *)
 Definition coherent (pr : proc) : Prop :=
